@@ -241,6 +241,7 @@ def spec_label_set(spec):
 # --------------------------------------------------------------------------- one case
 
 CASE_DEADLINE = 60.0
+_held = {}
 
 
 WARM_KINDS = ("add", "remove", "add_annotator", "merge")
@@ -315,7 +316,18 @@ def eval_case(spec, recipe, backend, kind, window=None, warm=None):
             d = DISSIMS.get(recipe)
             al = run_alignment(c, d, kind, window)
             nts, dis, uds = observe_alignment(al)
-        return {"ok": True, "nts": nts, "disorder": dis, "uds": uds, "solvers": solver_calls()}
+            # result stability: the alignment object returned by the PREVIOUS call is observed again
+            prev_changed = None
+            if _held.get("al") is not None:
+                try:
+                    again = observe_alignment(_held["al"])
+                except Exception as e:  # noqa
+                    again = f"{type(e).__name__}: {e}"
+                if again != _held["obs"]:
+                    prev_changed = {"before": _held["obs"], "after": again, "case": _held["case"]}
+            _held.update(al=al, obs=(nts, dis, uds), case=case_dict(spec, recipe, backend, kind, window))
+        return {"ok": True, "nts": nts, "disorder": dis, "uds": uds, "solvers": solver_calls(),
+                "prev_changed": prev_changed}
     except CaseTimeout as e:
         return {"ok": False, "exc": f"TIMEOUT {e}", "timeout": True}
     except Exception as e:  # noqa
